@@ -6,6 +6,7 @@ import c11lib as L
 NAME = "building"
 MODULE = "cspuz.puzzle.building"
 FUNC = "solve_building"
+TIER1 = ("Building", "solve_building_model")
 MAX_ANSWERS = 400000
 
 
@@ -46,3 +47,20 @@ def tier2(tier, rng):
         yield _rand(rng, 2, 0.5)
     for _ in range(20 if th else 3):
         yield _rand(rng, 3, 0.6)
+
+
+def tier1_problems(tier, rng):
+    """program-capture tie: every clue vector for n = 1, samples for n = 2..7 (clues 0 = none, 1..n, also n + 1),
+    n = 0 (ValueError), clue lists that are too short (IndexError)"""
+    import itertools
+    th = tier == "thorough"
+    for t in itertools.product(range(0, 3), repeat=4):
+        yield {"n": 1, "up": [t[0]], "dw": [t[1]], "lf": [t[2]], "rg": [t[3]]}
+    for n in (2, 3, 4, 5, 6, 7):
+        for p in [0.0, 0.3, 0.6, 0.85] * (3 if th else 1):
+            yield _rand(rng, n, p)
+        f = lambda: [rng.choice([-1, 0, 1, n, n + 1]) for _ in range(n)]  # noqa
+        yield {"n": n, "up": f(), "dw": f(), "lf": f(), "rg": f()}
+    yield {"n": 0, "up": [], "dw": [], "lf": [], "rg": []}
+    yield {"n": 2, "up": [1, 2], "dw": [0], "lf": [0, 0], "rg": [0, 0]}
+    yield {"n": 2, "up": [0, 0], "dw": [0, 0], "lf": [0, 0], "rg": [2]}
